@@ -76,6 +76,19 @@ inline void build_graph(const Instance &I, Graph &g, std::vector<Edge> &eidx, co
     }
 }
 
+// rank of every edge's property address (decides std::set<Edge> order inside parmcb); recorded so that a concrete replay can
+// try to reproduce the same order
+inline std::string address_order(const Graph &g, const std::vector<Edge> &eidx) {
+    std::vector<std::pair<const void *, int>> a;
+    for (size_t i = 0; i < eidx.size(); i++) a.emplace_back((const void *) eidx[i].get_property(), (int) i);
+    std::sort(a.begin(), a.end());
+    std::vector<int> rank(eidx.size());
+    for (size_t k = 0; k < a.size(); k++) rank[a[k].second] = (int) k;
+    std::string s;
+    for (size_t i = 0; i < rank.size(); i++) s += (i ? "," : "") + std::to_string(rank[i]);
+    return s;
+}
+
 inline std::vector<int> parse_int_list(const symx::Case &c, const std::string &key) {
     std::vector<int> r;
     if (!c.count(key)) return r;
